@@ -16,6 +16,7 @@ import (
 type XExpr struct {
 	K    string  `json:"k"`              // lit | opaque | nil | ident | call | fn | funclit | spread (a []error operand followed by ..., V: its text)
 	V    string  `json:"v,omitempty"`    // lit: the literal text
+	Src  string  `json:"src,omitempty"`  // lit: printed like this instead (a constant's name: what it means is V at this place)
 	Ty   byte    `json:"ty,omitempty"`   // type letter of the expression (i s e)
 	X    int     `json:"x,omitempty"`    // ident: variable (see xVarName)
 	F    int     `json:"f,omitempty"`    // call: callee; funclit: the literal's function index
@@ -26,7 +27,8 @@ type XStmt struct {
 	K   string  `json:"k"`             // assign | ret | bare | addassign
 	Lhs []int   `json:"lhs,omitempty"` // assign: variables (-1: blank)
 	Rhs []XExpr `json:"rhs,omitempty"`
-	If  bool    `json:"if,omitempty"` // wrapped in `if cond { … }`
+	If  bool    `json:"if,omitempty"`  // wrapped in `if cond { … }`
+	Pre string  `json:"pre,omitempty"` // a declaration printed on its own line ahead of the statement (not a statement of the model's language)
 	pos int
 }
 
@@ -145,6 +147,9 @@ func (c *xprogCase) number() {
 func (c *xprogCase) exprSrc(e XExpr, indent string) string {
 	switch e.K {
 	case "lit":
+		if e.Src != "" {
+			return e.Src
+		}
 		return e.V
 	case "nil":
 		return "nil"
@@ -229,6 +234,9 @@ func (c *xprogCase) bodySrc(b *strings.Builder, f int, indent string) {
 		case "bare":
 			text = "return"
 		}
+		if s.Pre != "" {
+			fmt.Fprintf(b, "%s%s\n", indent, s.Pre)
+		}
 		if s.If {
 			// nested somewhere below the top level of the body (see nestStmt); the kind of nesting goes by the statement's number
 			b.WriteString(nestStmt(s.pos, fmt.Sprintf("L%d", s.pos), text, indent))
@@ -246,7 +254,7 @@ func (c *xprogCase) sources(idx int) map[string]string {
 	if c.hasLib() {
 		fmt.Fprintf(&b, "import lib \"%s/c%d/lib\"\n\nvar _ = lib.Use\n\n", batchMod, idx)
 	}
-	b.WriteString("var vi int\nvar vs string\nvar va any\nvar cond bool\nvar pkgErr error\n\nvar st struct {\n\tfe error\n\tfi int\n}\n\nfunc use(...any) {}\n\nfunc mkErrs() []error { return nil }\n\n")
+	b.WriteString("const unit = 1\n\nconst word = \"w\"\n\nvar vi int\nvar vs string\nvar va any\nvar cond bool\nvar pkgErr error\n\nvar st struct {\n\tfe error\n\tfi int\n}\n\nfunc use(...any) {}\n\nfunc mkErrs() []error { return nil }\n\n")
 	lb.WriteString("package lib\n\nvar vi int\nvar vs string\nvar va any\nvar cond bool\nvar libErr error\nvar libInt int\n\nfunc use(...any) {}\n\nfunc Use(...any) {}\n\nfunc mkErrs() []error { return nil }\n\n")
 	mainB := &b
 	for f, fn := range c.Fs {
@@ -642,6 +650,9 @@ func (c *xprogCase) Classes() []string {
 		}
 		for _, s := range fn.Body {
 			m["stmt:"+s.K] = true
+			if s.Pre != "" {
+				m["name-redeclared-between-two-uses"] = true
+			}
 			if s.K == "assign" && len(s.Lhs) > len(s.Rhs) {
 				m["assign:forwarding"] = true
 			}
@@ -950,6 +961,48 @@ func genXProg(r *Rng) *xprogCase {
 			g.fs[f].Body = body
 		}
 	}
+	if r.Chance(15) {
+		// one name, two meanings in one block: a named result is assigned an expression over a package-level constant,
+		// the name is then declared again locally (another value, perhaps another type), and another named result is
+		// assigned the same expression text — which an evaluator must not confuse with the first.  (`unit + unit`, not
+		// the bare name: a bare identifier is followed to its object, an expression is evaluated where it stands; two
+		// different results: of two assignments to one variable only the later one counts.)
+		type pair struct{ f, a, b int }
+		var cand []pair
+		for f, fn := range g.fs {
+			if !fn.Named || fn.NoBody || fn.Lib || fn.Lit {
+				continue
+			}
+			for a := 0; a < len(fn.Tys); a++ {
+				for b := a + 1; b < len(fn.Tys); b++ {
+					if fn.Tys[a] != 'e' && fn.Tys[b] != 'e' {
+						cand = append(cand, pair{f, a, b})
+					}
+				}
+			}
+		}
+		if len(cand) > 0 {
+			pr := cand[r.Intn(len(cand))]
+			if r.Bool() {
+				pr.a, pr.b = pr.b, pr.a // the textually first assignment may be to the later result
+			}
+			tys := g.fs[pr.f].Tys
+			name, first := "unit", "2"
+			if tys[pr.a] == 's' {
+				name, first = "word", `"ww"`
+			}
+			decl, second := fmt.Sprintf("const %s = 7", name), "14"
+			if tys[pr.b] == 's' {
+				decl, second = fmt.Sprintf("const %s = \"k\"", name), `"kk"`
+			}
+			src := name + " + " + name
+			pre := []XStmt{
+				{K: "assign", Lhs: []int{pr.f*100 + 20 + pr.a}, Rhs: []XExpr{{K: "lit", V: first, Ty: tys[pr.a], Src: src}}},
+				{K: "assign", Lhs: []int{pr.f*100 + 20 + pr.b}, Rhs: []XExpr{{K: "lit", V: second, Ty: tys[pr.b], Src: src}}, Pre: decl},
+			}
+			g.fs[pr.f].Body = append(pre, g.fs[pr.f].Body...)
+		}
+	}
 	c := &xprogCase{Fs: g.fs, Q: r.Intn(k)}
 	return c
 }
@@ -998,5 +1051,5 @@ var xprogStream = &Stream{
 	Name: "extended-programs", Quick: 1500, Thorough: 10000, New: func() Case { return &xprogCase{} },
 	Gen:      func(r *Rng, i int) Case { return genXProg(r) },
 	BatchRun: xprogBatch, ShrinkBudget: 40, MaxShrinks: 5,
-	Rule: "programs of 2–6 functions over the extended language of Model/Resolver2: 1–3 results of int/string/error (named in a third of the functions), parameters none / `e error` / `fn func() error` / `fn func() (int, error)` / `es ...error` / `e error, es ...error` (called with 0–2 listed arguments or with a slice spread into them), 0–3 local variables, 1–6 statements (some nested in an if, a for, a labelled for or switch, a bare block, a switch case, a range loop or a select) among single, tuple, forwarding (`x, err = F()`) and `+=` assignments to locals, named results, captured variables, package variables and struct fields, full / forwarding / bare returns; expressions: literals, nil, opaque, identifiers (locals, named results, parameters, package variables of the same and of another file, selectors), calls with an error argument (itself an identifier, nil or a call) or a function literal argument with its own locals and statements, calls through a function-typed parameter, calls through a selector into functions of a sub-package (which call one another, use that package's variables and take literals too), functions declared without body, and a literal-only function now and then; printed to Go (two files), loaded with the real loader (100 per load), every top-level function of a program asked one after the other on the same loaded package in supervised children (the model answers each question from scratch); every statement carries its source-order number for the model; compared: FuncResults.String(); oracle as for the core programs",
+	Rule: "programs of 2–6 functions over the extended language of Model/Resolver2: 1–3 results of int/string/error (named in a third of the functions), parameters none / `e error` / `fn func() error` / `fn func() (int, error)` / `es ...error` / `e error, es ...error` (called with 0–2 listed arguments or with a slice spread into them), 0–3 local variables, 1–6 statements (some nested in an if, a for, a labelled for or switch, a bare block, a switch case, a range loop or a select) among single, tuple, forwarding (`x, err = F()`) and `+=` assignments to locals, named results, captured variables, package variables and struct fields, full / forwarding / bare returns; expressions: literals, nil, opaque, identifiers (locals, named results, parameters, package variables of the same and of another file, selectors), calls with an error argument (itself an identifier, nil or a call) or a function literal argument with its own locals and statements, calls through a function-typed parameter, calls through a selector into functions of a sub-package (which call one another, use that package's variables and take literals too), functions declared without body, a literal-only function now and then, and in one program of seven an expression over a package-level constant assigned to one named result, the constant's name declared again locally (another value or another type), and the same expression text assigned to another named result; printed to Go (two files), loaded with the real loader (100 per load), every top-level function of a program asked one after the other on the same loaded package in supervised children (the model answers each question from scratch); every statement carries its source-order number for the model; compared: FuncResults.String(); oracle as for the core programs",
 }
